@@ -565,7 +565,13 @@ func (cc *checkCtx) decideFailure(rec *obRecord, outDir string) {
 				}
 			}
 		}
-		path, err := writeQueryFile(filepath.Join(outDir, "vc"), name, rec.u.decls, f.Asserts, vals)
+		decls := rec.u.decls
+		if f.NDecls > 0 && f.NDecls <= len(decls) {
+			// only what the solver knew when it answered: later paths may have added facts
+			// about states that are unreachable once this obligation fails
+			decls = decls[:f.NDecls]
+		}
+		path, err := writeQueryFile(filepath.Join(outDir, "vc"), name, decls, f.Asserts, vals)
 		if err != nil {
 			rec.status = "undecided"
 			rec.detail = err.Error()
